@@ -468,8 +468,44 @@ def shaped_stopiteration(rng):
     return {"t0": "0", "codes": [waiter, late, trig], "plan": plan}
 
 
+def shaped_cond_decided_then_fail(rng):
+    """a condition over two shared events A, B is decided by one operand and, IN THE SAME INSTANT and before the condition is
+    processed, the other operand fails with nobody else waiting on it: the condition forwards that failure to no one, so
+    step()/run() must raise it at that instant (any_of: A succeeds then B fails; all_of: A fails then B fails).  Variants: the
+    failure comes first, or one instant later, or another waiter of B catches it"""
+    L = _Lbl()
+    anyof = rng.random() < 0.5
+    setup = [["event", ["G", 0]], ["event", ["G", 1]], ["probe", ["G", 0], L.probe()], ["probe", ["G", 1], L.probe()]]
+    waiter = [["cond", ["L", 1], not anyof, [["G", 0], ["G", 1]]],
+              ["yield", L.lbl(), ["reg", ["L", 1]], ["L", 2], _mode(rng)], ["log", ["reg", ["L", 2]]],
+              ["timeout", ["L", 3], "1", ["int", 3]], ["yield", L.lbl(), ["reg", ["L", 3]], ["L", 4], "catch"], ["log", ["reg", ["L", 4]]]]
+    d = rng.choice(["0", "1", "1/2"])
+    first = ["succeed", ["G", 0], _val(rng)] if anyof else ["fail", ["G", 0], _exc(rng)]
+    second = ["fail", ["G", 1], _exc(rng)]
+    order = rng.random()
+    trig = [["timeout", ["L", 1], d, ["none"]], ["yield", L.lbl(), ["reg", ["L", 1]], ["L", 2], "catch"]]
+    if order < 0.6:
+        trig += [first, second]                                             # decided, then the other operand fails at once
+    elif order < 0.8:
+        trig += [second, first]                                             # the failure comes first
+    else:
+        trig += [first, ["timeout", ["L", 3], rng.choice(["0", "1"]), ["none"]],
+                 ["yield", L.lbl(), ["reg", ["L", 3]], ["L", 4], "catch"], second]   # a kernel step / an instant later
+    trig += [["timeout", ["L", 5], "1", ["int", 5]], ["yield", L.lbl(), ["reg", ["L", 5]], ["L", 6], "catch"], ["log", ["reg", ["L", 6]]]]
+    codes = [waiter, trig]
+    setup += [["spawn", ["G", 2], 0, ["none"]], ["spawn", ["G", 3], 1, ["none"]]]
+    if rng.random() < 0.25:                                                 # somebody else handles B's failure
+        codes.append([["yield", L.lbl(), ["reg", ["G", 1]], ["L", 1], "catch"], ["log", ["reg", ["L", 1]]]])
+        setup.append(["spawn", ["G", 4], 2, ["none"]])
+    plan = [["exec", setup]]
+    for _ in range(rng.randint(2, 4)):
+        plan.append(rng.choice([["run"], ["run"], ["step", rng.choice([1, 2, 4])]]))
+    plan += [["run"], ["run"]]
+    return {"t0": "0", "codes": codes, "plan": plan}
+
+
 SHAPED = [shaped_double, shaped_double, shaped_double, shaped_join, shaped_join, shaped_join, shaped_timeouts, shaped_timeouts,
-          shaped_unhandled, shaped_unhandled, shaped_stopiteration]
+          shaped_unhandled, shaped_unhandled, shaped_stopiteration, shaped_cond_decided_then_fail, shaped_cond_decided_then_fail]
 
 
 def mutate_case(rng, case):
